@@ -78,6 +78,24 @@ Proof.
   - vm_compute. reflexivity.
 Qed.
 
+(* The cycle clause as one statement.  With unique deployment names (they are the keys of a mapping) and every
+   wraps reference defined: the constructor raises the definition error IFF some declared deployment reaches a
+   wraps cycle (self references included).  This supersedes the two _partial statements above. *)
+Theorem C28_cycles_iff : forall ds,
+  NoDup (map d_name ds) -> closed ds ->
+  ((exists n, check_stacked ds = CCycle n) <->
+   (exists d x j m, In d ds /\ reach ds d j x /\ reach ds x (S m) x)).
+Proof. exact rejected_iff_cycle. Qed.
+Example C28_cycles_iff_example :
+  let ds := [D "a" None (Some "b"); D "b" None (Some "c"); D "c" (Some "/w") (Some "b"); D "e" None None] in
+  NoDup (map d_name ds) /\ closed ds.
+Proof.
+  split.
+  - repeat constructor; simpl; intros H; repeat destruct H as [H|H]; try discriminate H; exact H.
+  - intros d w Hd Hw. simpl in Hd.
+    destruct Hd as [<-|[<-|[<-|[<-|[]]]]]; simpl in Hw; try discriminate Hw; injection Hw as <-; vm_compute; discriminate.
+Qed.
+
 (* non-vacuity *)
 Example C28_nearest_example :
   let bs := [B true "/" 0; B true "/main/sub" 1; B false "/main/sub/p" 2; B true "/main//sub/./step" 3;
@@ -107,3 +125,4 @@ Print Assumptions C28_cycles_rejected_is_cycle_partial.
 Print Assumptions C28_cycles_accepted_terminates_partial.
 Print Assumptions C28_cycles_never_accepted.
 Print Assumptions C28_cycles.
+Print Assumptions C28_cycles_iff.
